@@ -33,6 +33,9 @@ Patterns == { PAnd(<<I("p"), r, I("q")>>) : r \in Repeated }
        \* has to give instructions back)
        \cup { PAnd(<<r, PIns("a", <<OLit("x")>>)>>) : r \in Repeated }
        \cup { PAnd(<<I("p"), r, I("a"), I("q")>>) : r \in Repeated }
+       \* the same repeated item at two places of one rule (in the `alias' spelling the two are ONE YAML node,
+       \* written once with an anchor and referred to by an alias)
+       \cup { PAnd(<<r, I("p"), r, I("q")>>) : r \in Repeated }
        \cup Unrolled
 
 Bodies == { <<"a", <<>> >>, <<"a", <<"x">> >>, <<"b", <<>> >>, <<"c", <<>> >> }
@@ -44,6 +47,9 @@ Listings == { WithAddrs(<< <<"p", <<>> >> >> \o s \o << <<"q", <<>> >> >>) : s \
        \* runs of two-instruction units in alternating orders (a b b a ...), whatever MaxBody is
        \cup { WithAddrs(<< <<"p", <<>> >> >> \o s \o << <<"q", <<>> >> >>)
               : s \in SeqsBetween({ <<"a", <<>> >>, <<"b", <<>> >> }, 4, 4) }
+
+       \cup { WithAddrs([k \in 1..n1 |-> <<"a", <<>> >>] \o << <<"p", <<>> >> >> \o [k \in 1..n2 |-> <<"a", <<>> >>] \o << <<"q", <<>> >> >>)
+              : n1 \in 0..4, n2 \in 0..4 }
 
 Universe == [patterns |-> SetToSeq(Patterns), listings |-> SetToSeq(Listings)]
 \* the repeated form under mnemonics-full-match: runs mixing `a' with a mnemonic that merely contains it
